@@ -498,6 +498,16 @@ class World:
         if p["default_options"] is not None:
             kw["default_options"] = self._given(p["default_options"])
         factory = abstractdataset if p["abstract"] else dataset
+        stored = p["cache"] == "stored_factory" and self.mode != "nocache"
+        if stored:
+            # one stored factory made with a cache CALLABLE, used for several definitions:
+            # "memo = dataset(cache=MemoryCache)" ... "memo(f)", "memo(g)"; every dataset gets a cache of its own
+            from labrea.cache import MemoryCache
+
+            if not hasattr(self, "_stored_factory"):
+                self._stored_factory = dataset(cache=MemoryCache)
+            kw.pop("cache")
+            factory = self._stored_factory(abstract=True) if p["abstract"] else self._stored_factory
         if p["factory"] == "chain":
             # the same definition spelled as a chain of specialised factories: parameters one .where() call
             # each instead of argument defaults (they accumulate), effects one call each (they accumulate
@@ -520,6 +530,8 @@ class World:
             d = factory(body)
         else:
             d = factory(body, **kw)
+        if stored:
+            self.caches[("ds", name)] = d.cache
         self.datasets[name] = (repr(t), d)
         for alias, x in p["overloads"]:
             d.register(alias, self.build(x))
